@@ -193,6 +193,7 @@ type Engine struct {
 	inInit                                                  bool
 	mustCover                                               map[string]bool
 	bounds                                                  map[string]int64
+	vary                                                    map[string]bool // nondets the native replay may search over (inputs of uninterpreted hashes)
 	unwindChecked, unwindFailed                             int64
 	feasUnknown                                             int64
 	goSpawned, goBlockedAtEnd                               int64
